@@ -795,6 +795,11 @@ Section Machine.
   Lemma deep_set_attrs : forall a t, deep_okb (set_attrs a t) = deep_okb t.
   Proof. intros a [an g at_ k x]. reflexivity. Qed.
 
+  Lemma deep_finish_attrs : forall parsed mrow merged, deep_okb (finish_attrs parsed mrow merged) = deep_okb parsed.
+  Proof.
+    intros parsed mrow merged. unfold finish_attrs, add_attrs. destruct merged; rewrite !deep_set_attrs; reflexivity.
+  Qed.
+
   Lemma inv_new : inv [new_frame].
   Proof.
     split; [|split].
@@ -811,7 +816,7 @@ Section Machine.
     destruct rest as [|g rest].
     - cbn [sinv] in Hs1. destruct Hs1 as [H0 [[_ W]|[e [K [A [_ P]]]]]]; [congruence|].
       inversion Hd1 as [|? ? DT _]; subst. unfold fdeep in DT. rewrite K in DT. cbn [deep_list forallb] in DT. rewrite andb_true_r in DT.
-      rewrite K in H. inversion H; subst t. clear H. rewrite deep_set_ann. unfold add_attrs. rewrite !deep_set_attrs.
+      rewrite K in H. inversion H; subst t. clear H. rewrite deep_set_ann. rewrite deep_finish_attrs.
       destruct (negb (List.length (pkids mrow) =? 1)%nat || negb (has_attr s_intent mrow)); [exact DT|].
       rewrite deep_okb_unfold. unfold is_built, mk_row. cbn [pkids tag_is ptag rev app existsb]. unfold ann_none. rewrite A.
       cbn [negb orb andb deep_list forallb]. rewrite DT. rewrite andb_false_r. reflexivity.
